@@ -366,8 +366,13 @@ class HybridClass(metaclass=MetaHybridClass):
                 out[ff] = vv.to_dict()
             elif hasattr(vv, "_to_dict"):
                 out[ff] = vv._to_dict()
-            elif np.any(defaults.get(ff) != vv):
-                # Only include those scalar values that are not default.
+            elif ff in defaults:
+                # Only include those values that are not default.
+                if np.any(defaults[ff] != vv):
+                    out[ff] = vv
+            elif vv is not None:
+                # no default to compare with (e.g. an array of dynamic
+                # shape): always stored, also when it is empty
                 out[ff] = vv
 
         return out
